@@ -67,8 +67,9 @@ def _root(es, c0, chain, **kw):
 
 
 def run_chain(es, c0, chain, **kw):
-    """-> (x ndarray, success bool, sane bool, own) or SutError.  `own()` returns the residual vector the solver itself
-    reported for the returned point (last stage of the chain) or None; it is used only to *classify* a failure."""
+    """-> (x ndarray, success bool, sane bool, own) or SutError.  `own()` returns what the solver itself recorded for
+    the returned point in the last stage of the chain, {"fun": residual vector, "success": that stage's own flag}, or
+    None; it is used only to *classify* a failure (known-finding signature), never to judge."""
     import numpy as np
     if chain == "solve":
         res = _call(es.solve, dict(c0))
@@ -81,19 +82,19 @@ def run_chain(es, c0, chain, **kw):
             again = _root(es, c0, "solve")
             if is_err(again) or not np.array_equal(np.asarray(again[0], dtype=float), x):
                 return None
-            return _last_fun(again[1])
+            return _last_stage(again[1])
         return x, bool(res.success), bool(res.sane), own
     out = _root(es, c0, chain, **kw)
     if is_err(out):
         return out
     x, info, sane = out
-    return np.asarray(x, dtype=float), bool(info["success"]), bool(sane), (lambda: _last_fun(info))
+    return np.asarray(x, dtype=float), bool(info["success"]), bool(sane), (lambda: _last_stage(info))
 
 
-def _last_fun(info):
+def _last_stage(info):
     try:
-        fun = info["intermediate_info"][-1]["fun"]
-        return [float(v) for v in fun]
+        last = info["intermediate_info"][-1]
+        return {"fun": [float(v) for v in last["fun"]], "success": bool(last["success"])}
     except (KeyError, IndexError, TypeError, ValueError):
         return None
 
@@ -102,9 +103,10 @@ def solver_own_residual(own, chain, nr, index, mag=None):
     """What the solver itself saw, as a relative number, for equilibrium `index` (mag None) or for the conservation row
     `index` (mag = sum|terms|).  Layout of f (rref off): nr equilibrium rows, then one row per sorted composition key.
     Lin rows are q/k - 1, Log rows ln q - ln k, conservation rows are absolute differences."""
-    fun = own() if own is not None else None
-    if fun is None:
+    rec = own() if own is not None else None
+    if rec is None:
         return None
+    fun = rec["fun"]
     kind = _CHAIN_KINDS[chain][-1]
     try:
         if mag is None:
@@ -115,7 +117,69 @@ def solver_own_residual(own, chain, nr, index, mag=None):
         return None
 
 
-def judge_common(ctx, species, x, c0, detail, own=None, chain=None, nr=0):
+def lsq_stationarity(kind, species, nets, Ks, c0, xs):
+    """|J^T f| / (|J|_2 |f|) at the returned point for the residual vector of the last stage as *this module* models it
+    (Lin: rows Q/K - 1 in the variables c; Log: rows ln Q - ln K in the variables ln c; then one row per composition
+    key, total - initial total).  ~0 means the point is a stationary point of the sum of squares MINPACK's lm
+    minimises (a local minimiser that is not a root); ~1 means the residual is not even locally minimal.  None when
+    it cannot be evaluated (a zero concentration where a logarithm or a negative power is needed).  Used only to
+    *classify* a failure for the known-finding matcher."""
+    import numpy as np
+    try:
+        c = np.array([float(v) for v in xs])
+        rows_f, rows_J = [], []
+        for net, k in zip(nets, Ks):
+            row = np.zeros(len(species))
+            if kind == "Log":
+                if any(c[species.index(s)] <= 0 for s in net):
+                    return None
+                rows_f.append(sum(n * math.log(c[species.index(s)]) for s, n in net.items()) - math.log(k))
+                for s, n in net.items():
+                    row[species.index(s)] = n
+            else:
+                if any(c[species.index(s)] == 0 for s, n in net.items() if n < 0):
+                    return None
+                q = 1.0
+                for s, n in net.items():
+                    q *= c[species.index(s)] ** n
+                rows_f.append(q / k - 1)
+                for s, n in net.items():
+                    rest = 1.0
+                    for s2, n2 in net.items():
+                        rest *= c[species.index(s2)] ** (n2 - 1 if s2 == s else n2)
+                    row[species.index(s)] = n * rest / k
+            rows_J.append(row)
+        for key in G.comp_keys(species):
+            b = np.array([G.COMP[s].get(key, 0) for s in species], dtype=float)
+            rows_f.append(float(b.dot(c) - b.dot(np.array([c0[s] for s in species]))))
+            rows_J.append(b * c if kind == "Log" else b)
+        f, J = np.array(rows_f), np.array(rows_J)
+        nf, nJ = float(np.linalg.norm(f)), float(np.linalg.norm(J, 2))
+        if not (nf > 0 and nJ > 0 and math.isfinite(nf) and math.isfinite(nJ)):
+            return None
+        return float(np.linalg.norm(J.T.dot(f)) / (nJ * nf))
+    except (ZeroDivisionError, OverflowError, ValueError, FloatingPointError):
+        return None
+
+
+def failure_signature(own, chain, species, nets, Ks, c0, xs, dev, index, mag=None):
+    """Classification of a non-genuine success-and-sane result for the known-finding matcher (D10 family):
+    solver_own_residual   the solver's own residual for the violated equation (relative), see solver_own_residual();
+    own_over_oracle       that number divided by the oracle's deviation: ~1 means the solver evaluated the same
+                          residual as the oracle and saw the error (the residual function itself is intact);
+    last_stage_success    the innermost record of the last stage (what MINPACK returned through pyneqsys) itself
+                          claims convergence, i.e. the success flag was relayed, not invented on the way out;
+    lsq_stationarity      see lsq_stationarity()."""
+    res = solver_own_residual(own, chain, len(nets), index, mag)
+    rec = own() if (own is not None and res is not None) else None
+    kind = _CHAIN_KINDS[chain][-1] if chain in _CHAIN_KINDS else None
+    return {"solver_own_residual": res,
+            "own_over_oracle": (res / dev) if (res is not None and dev) else None,
+            "last_stage_success": rec["success"] if rec else None,
+            "lsq_stationarity": lsq_stationarity(kind, species, nets, Ks, c0, xs) if kind else None}
+
+
+def judge_common(ctx, species, x, c0, detail, own=None, chain=None, nets=(), Ks=()):
     """Non-negativity, finiteness and conservation.  Returns False when a failure was reported."""
     import mpmath
     xs = [float(v) for v in x]
@@ -143,9 +207,10 @@ def judge_common(ctx, species, x, c0, detail, own=None, chain=None, nr=0):
             t0 = sum(G.COMP[s].get(k, 0) * mpmath.mpf(c0[s]) for s in species)
             mag = sum(abs(G.COMP[s].get(k, 0)) * (mpmath.mpf(conc[s]) + mpmath.mpf(c0[s])) for s in species) / 2
             if abs(t1 - t0) > CONS_RTOL * mag:
-                ctx.fail("not_conserved", key=k, total=float(t1), initial_total=float(t0),
-                         rel_error=float(abs(t1 - t0) / mag), x=xs,
-                         solver_own_residual=solver_own_residual(own, chain, nr, j, float(mag)), **detail)
+                rel = float(abs(t1 - t0) / mag)
+                sig = failure_signature(own, chain, species, nets, Ks, c0, xs, rel, j, float(mag)) if own else {}
+                ctx.fail("not_conserved", key=k, total=float(t1), initial_total=float(t0), rel_error=rel, x=xs,
+                         **dict(sig, **detail))
                 return False
     return True
 
@@ -172,12 +237,13 @@ def build08(M):
     return es
 
 
-def judge_homog(ctx, M, x, chain, own=None):
+def judge_homog(ctx, M, x, chain, own=None, extra=None):
     """True when the result is genuine."""
     import mpmath
     xs = [float(v) for v in x]
     detail = {"chain": chain, "min_over_max": spread(xs)}
-    if not judge_common(ctx, M.species, x, M.c0, detail, own, chain, len(M.nets)):
+    detail.update(extra or {})
+    if not judge_common(ctx, M.species, x, M.c0, detail, own, chain, M.nets, M.K):
         return False
     conc = dict(zip(M.species, xs))
     for i, net in enumerate(M.nets):
@@ -194,8 +260,8 @@ def judge_homog(ctx, M, x, chain, own=None):
             with mpmath.workdps(30):
                 dev = float(abs(mpmath.expm1(lq - mpmath.log(mpmath.mpf(M.K[i])))))
         if dev is None or not dev <= Q_RTOL:
-            ctx.fail("Q_differs_from_K", rxn=G.BASE[M.idx[i]][0], Q_over_K_minus_1=dev, x=xs,
-                     solver_own_residual=solver_own_residual(own, chain, len(M.nets), i), **detail)
+            sig = failure_signature(own, chain, M.species, M.nets, M.K, M.c0, xs, dev, i)
+            ctx.fail("Q_differs_from_K", rxn=G.BASE[M.idx[i]][0], Q_over_K_minus_1=dev, x=xs, **dict(sig, **detail))
             return False
     return True
 
@@ -282,6 +348,16 @@ def check_precip(case, ctx):
     chain = case["chain"]
     ctx.label("chain:" + chain, "shape:" + case["shape"], M.solid,
               "written_as_precipitation" if M.reverse else "written_as_dissolution")
+    supersaturated = None
+    if M.near is not None:
+        # class labels from the floats actually handed to chempy (30-digit product), not from the construction
+        with mpmath.workdps(30):
+            q0 = ((mpmath.mpf(M.c0[M.cat]) + mpmath.mpf(M.c0[M.solid]))
+                  * (mpmath.mpf(M.c0[M.an]) + M.n_an * mpmath.mpf(M.c0[M.solid])) ** M.n_an) / mpmath.mpf(M.Ksp) - 1
+        supersaturated = bool(q0 > 0)
+        ctx.label("all_dissolved_Q/Ksp-1:%s1e%d" % ("+" if supersaturated else "-",
+                                                    int(math.floor(math.log10(abs(float(q0)))))) if q0 != 0 else "Q0=Ksp",
+                  "initial_solid" if M.c0[M.solid] > 0 else "no_initial_solid")
     es, subs = G.build_eqsys(M.species, [M.rxn], [M.K])
     out = run_chain(es, M.c0, chain, rref_preserv=True, tol=1e-12)
     if is_err(out):
@@ -308,8 +384,94 @@ def check_precip(case, ctx):
             ctx.fail("solid_present_but_Q_differs_from_Ksp", Q_over_Ksp=ratio, x=xs, **detail)
     else:
         ctx.label("solid_absent")
+        ctx.nontrivial(bool(supersaturated))     # near saturation from above: the switching condition had to decide
         if not ratio <= 1 + Q_RTOL:
             ctx.fail("solid_absent_but_Q_exceeds_Ksp", Q_over_Ksp=ratio, x=xs, **detail)
+
+
+
+def _solver_stack(err):
+    """True when the exception came out of the numerical stack (pyneqsys / scipy / numpy), i.e. is a solver failure."""
+    tb = err.exc.__traceback__
+    while tb is not None:
+        fn = tb.tb_frame.f_code.co_filename.replace("\\", "/")
+        if "/pyneqsys/" in fn or "/scipy/" in fn or "/numpy/" in fn:
+            return True
+        tb = tb.tb_next
+    return False
+
+
+def check_series(case, ctx):
+    """EqSystem.roots / EqSystem.solve(init_concs, varied): every grid point flagged success-and-sane is judged against
+    *its own* initial state (base state with the varied entries replaced by that point's values); the axes of the
+    result are the ones chempy itself names (roots: the one varied substance; solve: result.varied_keys)."""
+    import itertools
+    import numpy as np
+    M = G.ModelSeries(case)
+    chain = case["chain"]
+    order = "in_substance_order" if M.in_substance_order() else "out_of_substance_order"
+    ctx.label("api:" + M.api, "chain:" + chain, "n_varied=%d" % len(M.keys), "neq=%d" % len(M.idx),
+              "grid=" + "x".join(str(len(v)) for _, v in M.varied))
+    if len(M.keys) == 2:
+        ctx.label(order, "equal_lengths" if len(M.varied[0][1]) == len(M.varied[1][1]) else "unequal_lengths")
+    es = build08(M)
+    ns = len(M.species)
+    if M.api == "roots":
+        NumSysLin, NumSysLog = _numsys()
+        kw = {"default": {}, "loglin": {"NumSys": (NumSysLog, NumSysLin)}, "lin": {"NumSys": (NumSysLin,)}}[chain]
+        key, vals = M.varied[0]
+        out = _call(es.roots, dict(M.c0), np.array(vals), key, **kw)
+    else:
+        # a plain dict keeps the order in which the keys are listed
+        out = _call(es.solve, dict(M.c0), dict((k, list(v)) for k, v in M.varied))
+    if is_err(out):
+        if _solver_stack(out):
+            ctx.skip("solver_exception:%s:%s" % (chain, out.type))
+            return
+        raise out.exc            # raised by chempy itself while laying out the grid: not a solver failure
+    if M.api == "roots":
+        xvecs, infos, sanity = out
+        conc = np.asarray(xvecs, dtype=float)
+        axes = [M.keys[0]]
+        if not (conc.shape == (len(M.varied[0][1]), ns) and len(infos) == len(sanity) == conc.shape[0]):
+            ctx.fail("series_shape", got=list(conc.shape), n_info=len(infos), n_sanity=len(sanity),
+                     expected=[len(M.varied[0][1]), ns])
+            return
+        success = np.array([bool(i["success"]) for i in infos])
+        sane = np.array([bool(v) for v in sanity])
+    else:
+        res = out
+        axes = [str(k) for k in res.varied_keys]
+        if sorted(axes) != sorted(M.keys):
+            ctx.fail("grid_axes_are_not_the_varied_substances", varied_keys=axes, given=M.keys)
+            return
+        conc = np.asarray(res.conc, dtype=float)
+        shape = tuple(len(M.values[k]) for k in axes)
+        if not (conc.shape == shape + (ns,) and np.shape(res.success) == shape and np.shape(res.sane) == shape):
+            ctx.fail("series_shape", got=list(conc.shape), expected=list(shape + (ns,)), varied_keys=axes, given=M.keys)
+            return
+        success, sane = np.asarray(res.success, dtype=bool), np.asarray(res.sane, dtype=bool)
+    judged = 0
+    for index in itertools.product(*[range(len(M.values[k])) for k in axes]):
+        if not (success[index] and sane[index]):
+            continue
+        P = M.point({k: M.values[k][i] for k, i in zip(axes, index)})
+        x = conc[index]
+        if M.api == "roots":
+            own = (lambda info=infos[index[0]]: _last_stage(info))
+        else:
+            def own(P=P, x=x):
+                again = _root(es, P.c0, "solve")      # EqCalcResult drops the solver's info, see run_chain
+                if is_err(again) or not np.array_equal(np.asarray(again[0], dtype=float), x):
+                    return None
+                return _last_stage(again[1])
+        judged += 1
+        judge_homog(ctx, P, x, chain, own, extra={"grid_index": list(index), "varied_keys": axes})
+    if judged == 0:
+        ctx.skip("no_success:" + chain)
+        return
+    ctx.label("success:" + chain, "judged_points=%d" % judged if judged < 4 else "judged_points>=4")
+    ctx.nontrivial(judged >= 2)
 
 
 _TOL = {"|Q/K-1|": Q_RTOL, "conservation": "%g*sum|terms|" % CONS_RTOL}
@@ -330,4 +492,13 @@ SUBCHECKS = [
              rule="G.precip_cases: 1:1 salts, 3 chains, rref_preserv=True, tol=1e-12"),
     SubCheck("precipitation_1_2", check_precip, strategy=G.precip_cases(salts=(4,)), quick=60, thorough=3000, tolerances=_TOL,
              rule="CaF2(s) = Ca+2 + 2 F-: same oracle with Q = [Ca][F]^2"),
+    SubCheck("precipitation_near", check_precip, strategy=G.precip_near_cases(), quick=240, thorough=12000, tolerances=_TOL,
+             rule="G.precip_near_cases: 1:1 salts, initial states whose all-dissolved ion product is Ksp(1 + delta), "
+                  "|delta| log-uniform in [1e-9, 1e-2], both signs, with and without initial solid; same oracle"),
+    SubCheck("precipitation_near_1_2", check_precip, strategy=G.precip_near_cases(salts=(4,)), quick=120, thorough=4000,
+             tolerances=_TOL, rule="CaF2 near saturation: [Ca][F]^2 = Ksp(1 + delta) when all dissolved"),
+    SubCheck("series", check_series, strategy=G.c08_series_cases(), quick=160, thorough=6000, tolerances=_TOL,
+             rule="G.c08_series_cases: EqSystem.roots (1 varied substance; chains default, (Log, Lin), (Lin,)) and "
+                  "EqSystem.solve(init_concs, varied) with 1-2 varied substances x 2-4 values, keys in and out of "
+                  "substance order; every success-and-sane grid point vs its own initial state; result shape"),
 ]
